@@ -92,12 +92,16 @@ def run(ctx):
         "modelled: bool_check.is_true/is_false, Backend.is_true/is_false caching, the concrete backend's verdict as 'variable-free and evaluates to the literal' "
         "(the evaluation itself is the folding model of C01/C04; agreement is checked on every query)",
         "cache keys are AST hashes; they are identified with structure (C06)",
-        "solver-level is_true/is_false (FullFrontend + mixins + Z3) is validated by the brute-force oracle here and modelled in the solver family (C11)",
+        "solver-level is_true/is_false: proved for the SolverCacheless mixin stack (C11_is_true_false_sound, given a sound cheap backend test); the other "
+        "solver classes are validated by the brute-force oracle here (histories over a tree of branched solvers)",
     ]
     ctx.cov["rule"] = ("cases = histories of 6..40 is_true/is_false queries over pools of Boolean expressions: variable-free but unfolded (annotations block "
                        "folding), symbolic tautologies/contradictions, ordinary symbolic ones; each expression queried several times in shuffled order; "
                        "non-trivial = history with at least one cache hit and one True answer; distinct = history")
     ctx.prove("ClaripyProofs.Props.C10", THEOREMS)
+    # solver level (SolverCacheless stack, from the generated MRO): a True from is_true/is_false holds in every model of constraints ++ extra
+    ctx.prove("ClaripyProofs.Props.C11", ["Claripy.Props.C11.C11_is_true_false_sound", "Claripy.Solver.clTruth_spec", "Claripy.Solver.clStage_isTrue",
+                                          "Claripy.Solver.clStage_isFalse"], driver_exe="driver_solver")
     rng = ctx.rng
     conc = claripy.backends.concrete
     nh = ctx.pick(250, 4000)
